@@ -7,7 +7,7 @@ package main
 //     at pseudo-random points, reads everything the session writes, logs out,
 //   * the message store (memory or file) wrapped by a goroutine-safe logging store.
 // Op:   srcfacts   (first case only)  =>  facts <function:storeMethod …>   direct outbound store mutations in the source
-// Op:   round store=mem|file persist=0|1 senders=N per=K early=0|1 reset=0|1|2 rr=R tr=T hb=H outcap=C seed=S
+// Op:   round store=mem|file persist=0|1 senders=N per=K early=0|1 reset=0|1|2 rr=R tr=T hb=H outcap=C init=0|1 seed=S
 // Obs:  ok <finalSender> <storedRanges|-> <accepted> <live> <event tokens…>   (or  stalled <stage> | panic | crashed)
 //   tokens (one total order: store events under the store wrapper's lock, wire events as the peer reads them):
 //     a<n>.<snew>.<0|1>  number n handed out, store's next number afterwards, message saved or only counted
@@ -190,11 +190,11 @@ type concImpl struct {
 
 var concID = quickfix.SessionID{BeginString: "FIX.4.2", SenderCompID: "SND", TargetCompID: "TGT"}
 
-func concKey(store string, persist bool, reset int) string {
-	return fmt.Sprintf("%s/%v/%d", store, persist, reset)
+func concKey(store string, persist bool, reset int, initiator bool) string {
+	return fmt.Sprintf("%s/%v/%d/%v", store, persist, reset, initiator)
 }
 
-func (c *concImpl) build(store string, persist bool, reset int) *concSess {
+func (c *concImpl) build(store string, persist bool, reset int, initiator bool) *concSess {
 	st := quickfix.NewSessionSettings()
 	st.Set(config.BeginString, concID.BeginString)
 	st.Set(config.SenderCompID, concID.SenderCompID)
@@ -205,6 +205,10 @@ func (c *concImpl) build(store string, persist bool, reset int) *concSess {
 	}
 	if reset == 2 {
 		st.Set(config.ResetOnLogon, "Y")
+	}
+	if initiator {
+		st.Set(config.SocketConnectHost, "127.0.0.1")
+		st.Set(config.SocketConnectPort, "1")
 	}
 	cs := &concSess{log: &evLog{}}
 	var inner quickfix.MessageStoreFactory = quickfix.NewMemoryStoreFactory()
@@ -219,7 +223,7 @@ func (c *concImpl) build(store string, persist bool, reset int) *concSess {
 		inner = file.NewStoreFactory(gs)
 		cs.dir = dir
 	}
-	v, err := quickfix.VerifNewConcSession(false, concID, concStoreFactory{inner: inner, log: cs.log, made: &cs.store}, st, quickfix.NewNullLogFactory(), nullApp{})
+	v, err := quickfix.VerifNewConcSession(initiator, concID, concStoreFactory{inner: inner, log: cs.log, made: &cs.store}, st, quickfix.NewNullLogFactory(), nullApp{})
 	mustf(err, "cannot build session")
 	cs.v = v
 	v.RunAsync()
@@ -231,7 +235,7 @@ var concStores = []string{"mem", "file"}
 // take returns a running session of the wanted configuration.  run() sleeps until the next full second before it
 // serves its channels, so sessions are started well ahead of their use: every configuration has a FIFO of running
 // sessions that is topped up on every call, and the oldest one is handed out.
-func (c *concImpl) take(store string, persist bool, reset int) *concSess {
+func (c *concImpl) take(store string, persist bool, reset int, initiator bool) *concSess {
 	if c.pool == nil {
 		c.pool = map[string][]*concSess{}
 		c.tmp = filepath.Join(os.TempDir(), fmt.Sprintf("qfxh-conc-%d", os.Getpid()))
@@ -255,14 +259,20 @@ func (c *concImpl) take(store string, persist bool, reset int) *concSess {
 				} else if p || r == 0 {
 					n = 40
 				}
-				kk := concKey(s, p, r)
-				for len(c.pool[kk]) < n {
-					c.pool[kk] = append(c.pool[kk], c.build(s, p, r))
+				for _, ini := range []bool{false, true} {
+					nn := n
+					if ini {
+						nn = (n + 2) / 3
+					}
+					kk := concKey(s, p, r, ini)
+					for len(c.pool[kk]) < nn {
+						c.pool[kk] = append(c.pool[kk], c.build(s, p, r, ini))
+					}
 				}
 			}
 		}
 	}
-	k := concKey(store, persist, reset)
+	k := concKey(store, persist, reset, initiator)
 	q := c.pool[k]
 	cs := q[0]
 	c.pool[k] = q[1:]
@@ -276,7 +286,7 @@ func (c *concImpl) reset(string) {}
 type outMsgInfo struct {
 	seq, newSeq int
 	kind        string
-	dup         bool
+	dup, reset  bool
 }
 
 // safeScan: a mutated engine that races on the send queue can hand over a torn slice header
@@ -306,6 +316,8 @@ func scanOut(b []byte) outMsgInfo {
 			m.newSeq, _ = strconv.Atoi(val)
 		case "43":
 			m.dup = val == "Y"
+		case "141":
+			m.reset = val == "Y"
 		}
 	}
 	return m
@@ -324,6 +336,9 @@ type concPeer struct {
 	firstSeen map[int]bool
 	answered  chan struct{}
 	logonSeen chan struct{}
+	hbSeen    chan struct{}
+	onceHB    sync.Once
+	logonReset bool
 	logoutSeen chan struct{}
 	closed    chan struct{}
 	once1, once2 sync.Once
@@ -367,11 +382,15 @@ func (p *concPeer) read(out <-chan []byte) {
 		} else {
 			p.log.add(fmt.Sprintf("w%df", m.seq))
 			p.firstSeen[m.seq] = true
-			if m.seq > p.highFirst {
-				p.highFirst = m.seq
-			}
+			// first-time numbers increase within an epoch: a lower one means the sequence was reset, and a
+			// ResendRequest must only name numbers of the current epoch
+			p.highFirst = m.seq
 			if m.kind == "A" {
+				p.logonReset = m.reset
 				p.once1.Do(func() { close(p.logonSeen) })
+			}
+			if m.kind == "0" {
+				p.onceHB.Do(func() { close(p.hbSeen) })
 			}
 			if m.kind == "5" {
 				p.once2.Do(func() { close(p.logoutSeen) })
@@ -472,15 +491,11 @@ func (c *concImpl) round(kv map[string]string) string {
 	senders, per, nRR, nTR, nHB, outcap := atoi("senders"), atoi("per"), atoi("rr"), atoi("tr"), atoi("hb"), atoi("outcap")
 	seed, _ := strconv.ParseUint(kv["seed"], 10, 64)
 	r := newRng(seed)
-	cs := c.take(kv["store"], persist, reset)
+	initiator := kv["init"] == "1"
+	cs := c.take(kv["store"], persist, reset, initiator)
 	v := cs.v
-	out, err := v.ConnectAsync(64, outcap)
-	if err != nil {
-		return "stalled connect"
-	}
 	p := &concPeer{log: cs.log, firstSeen: map[int]bool{}, answered: make(chan struct{}, 1), logonSeen: make(chan struct{}),
-		logoutSeen: make(chan struct{}), closed: make(chan struct{})}
-	go p.read(out)
+		hbSeen: make(chan struct{}), logoutSeen: make(chan struct{}), closed: make(chan struct{})}
 
 	var accepted, senderPanics int64
 	var wg sync.WaitGroup
@@ -526,18 +541,45 @@ func (c *concImpl) round(kv map[string]string) string {
 		return "stalled " + stage
 	}
 	if early {
+		// the Logon (and with it a possible sequence reset) lands when a PRNG-chosen share of the sends has been made
 		startSenders()
-		for i := r.intn(6); i > 0; i-- {
-			pause(r)
+		target := int64(r.intn(senders*per*9/10 + 1))
+		for spin := 0; atomic.LoadInt64(&accepted) < target && spin < 2000000; spin++ {
+			runtime.Gosched()
 		}
 	}
-	if reset == 1 {
-		inject("A", "98=0", "108=30", "141=Y")
-	} else {
-		inject("A", "98=0", "108=30")
+	// the connection: an initiator sends its Logon as soon as it has one (Connect), an acceptor waits for the peer's
+	out, err := v.ConnectAsync(64, outcap)
+	if err != nil {
+		return "stalled connect"
 	}
-	if w := p.await(p.logonSeen, v); w != "" {
-		return outcome("logon", w)
+	go p.read(out)
+	if initiator {
+		if w := p.await(p.logonSeen, v); w != "" {
+			return outcome("logon", w)
+		}
+		p.mu.Lock()
+		mirror := p.logonReset
+		p.mu.Unlock()
+		if reset == 1 || mirror {
+			inject("A", "98=0", "108=30", "141=Y")
+		} else {
+			inject("A", "98=0", "108=30")
+		}
+		// the session is logged on once it has answered a TestRequest
+		inject("1", "112=SYNC")
+		if w := p.await(p.hbSeen, v); w != "" {
+			return outcome("logon", w)
+		}
+	} else {
+		if reset == 1 {
+			inject("A", "98=0", "108=30", "141=Y")
+		} else {
+			inject("A", "98=0", "108=30")
+		}
+		if w := p.await(p.logonSeen, v); w != "" {
+			return outcome("logon", w)
+		}
 	}
 	if !early {
 		startSenders()
@@ -707,9 +749,10 @@ func genConc(r *rng, tier string, idx int, o *out, do func(string) string) strin
 	}
 	nRR, nTR, nHB := r.intn(4), r.intn(4), r.intn(3)
 	outcap := []int{0, 1, 4, 64}[r.intn(4)]
-	op := fmt.Sprintf("round store=%s persist=%s senders=%d per=%d early=%s reset=%d rr=%d tr=%d hb=%d outcap=%d seed=%d",
-		store, map[bool]string{true: "1", false: "0"}[persist], senders, per, map[bool]string{true: "1", false: "0"}[early],
-		reset, nRR, nTR, nHB, outcap, r.u64()%1000000007)
+	initiator := r.chance(1, 4)
+	b01 := map[bool]string{true: "1", false: "0"}
+	op := fmt.Sprintf("round store=%s persist=%s senders=%d per=%d early=%s reset=%d rr=%d tr=%d hb=%d outcap=%d init=%s seed=%d",
+		store, b01[persist], senders, per, b01[early], reset, nRR, nTR, nHB, outcap, b01[initiator], r.u64()%1000000007)
 	obs := do(op)
 	if n := len(o.samples); n > 0 && len(o.samples[n-1]) > 600 {
 		o.samples[n-1] = o.samples[n-1][:600] + " …"
@@ -719,15 +762,16 @@ func genConc(r *rng, tier string, idx int, o *out, do func(string) string) strin
 	o.kind(fmt.Sprintf("persist=%v", persist))
 	o.kind(fmt.Sprintf("early=%v", early))
 	o.kind(fmt.Sprintf("reset=%d", reset))
+	o.kind(fmt.Sprintf("initiator=%v", initiator))
 	if strings.HasPrefix(obs, "ok ") {
 		n := strings.Count(obs, " w")
 		o.kind("rounds_ok")
 		o.kinds["wire_events"] += n
 		o.kinds["replay_answers"] += strings.Count(obs, " L")
 		if strings.Contains(obs, " L") {
-			o.nontrivial(fmt.Sprintf("%s/%v/%v/%d/%d/rr", store, persist, early, reset, senders))
+			o.nontrivial(fmt.Sprintf("%s/%v/%v/%d/%d/%v/rr", store, persist, early, reset, senders, initiator))
 		} else {
-			o.nontrivial(fmt.Sprintf("%s/%v/%v/%d/%d", store, persist, early, reset, senders))
+			o.nontrivial(fmt.Sprintf("%s/%v/%v/%d/%d/%v", store, persist, early, reset, senders, initiator))
 		}
 	} else {
 		o.kind("rounds_" + strings.Fields(obs)[0])
